@@ -93,3 +93,41 @@ def standin_frameops(prop, tier, seed, scratch, root):
                               'where': 'mpd_protocol/src/response/frame.rs', 'rendered': json.dumps(j), 'input': {'fields': j['fields'], 'ops': j['ops']},
                               'replayed': rep, 'replay_bin': 'frame_ops', 'replay_args': args})
     return row
+
+
+def standin_clientsim(prop, tier, seed, scratch, root):
+    """randomised simulation of the real client against a model MPD server (schedules x notifications x chunking x faults)"""
+    import replay as RP, json
+    from concurrent.futures import ThreadPoolExecutor
+    per = 5000 if tier != 'thorough' else 120000
+    workers = 8
+    base = 1 + max(seed, 0) * 10_000_000
+    row = {'function': 'run_loop, run_loop_iteration, handle_command, handle_idle_response, Client::{connect*, raw_command, raw_command_list, is_connection_closed}, ConnectionEvents::next end to end over AsyncConnection',
+           'engine': 'native randomised simulation: the real client over tokio::io::duplex against a model of MPD (idle rules, one reply per request in order), virtual time, single-threaded runtime (replay/src/bin/client_sim.rs)',
+           'label': 'bounded', 'cases': per * workers, 'violations': []}
+    def one(k):
+        return RP.run_bin('client_sim', scratch, ['search', str(base + k * per), str(per)], timeout=3000)
+    RP.build(scratch)
+    with ThreadPoolExecutor(workers) as ex:
+        rs = list(ex.map(one, range(workers)))
+    if not all(r.get('ran') for r in rs):
+        row['undecided'] = next(r for r in rs if not r.get('ran')).get('reason', 'simulation did not run'); return row
+    bad = [r for r in rs if r['fails']]
+    row['bound'] = ('%d scenarios (seeds %d..%d): 0-3 concurrent callers x <=4 requests each (single / list, failing at any index, with partial output, binary payloads), caller cancellation, '
+                    '<=4 notification bursts of <=3 names, reply delays around the 100 ms re-idle window, reply chunking 1..7 bytes, faults (cut at any byte, close, garbage, ACK to idle), password handshakes; '
+                    'idle replies are written atomically whenever requests exist (the split case is known finding C04.cancel_safe)' % (per * workers, base, base + per * workers - 1))
+    if not bad:
+        js = [json.loads(r.get('full_output', r['output']).strip().split('\n')[-1]) for r in rs]
+        row['result'] = 'no violation'; row['distinct_nontrivial'] = sum(j.get('with_requests', 0) for j in js); row['with_fault'] = sum(j.get('with_fault', 0) for j in js)
+        return row
+    try:
+        j = json.loads(bad[0].get('full_output', bad[0]['output']).strip().split('\n')[-1])
+    except Exception:
+        row['undecided'] = 'simulation output unreadable: ' + bad[0].get('output', '')[-300:] + bad[0].get('stderr', ''); return row
+    row['result'] = 'VIOLATION'; row['deviation'] = j
+    args = ['case', str(j['seed']), '20']
+    rep = RP.run_bin('client_sim', scratch, args); rep.pop('full_output', None)
+    row['violations'].append({'props': j.get('props', []), 'ob': 'client.sim', 'fn': 'client run loop', 'message': 'the real client violates the property in simulated scenario %d: %s' % (j['seed'], j.get('why', '')[:1500]),
+                              'where': 'mpd_client/src/client/connection.rs', 'rendered': json.dumps(j)[:3000], 'input': {'scenario_seed': j['seed']},
+                              'replayed': rep, 'replay_bin': 'client_sim', 'replay_args': args})
+    return row
